@@ -183,6 +183,15 @@ theorem sync_read_limit_bound (base max : Nat) (rs : List RItem) (ws : List WIte
   rw [hf.2.2.1, hf.2.2.2.1] at this
   exact this
 
+/-- **No panic for a disciplined caller.** If the caller keeps the `BufRead::consume` contract
+(`amt ≤` the length `fill_buf` shows) and never drops a `fill_read_buf` / `flush_write_buf` future
+while it is Pending (`Disciplined`), no operation of a `SyncStream` ever panics — for every inner
+script, including errors, short transfers, `WriteZero` and premature end of stream. -/
+theorem sync_no_panic (base max : Nat) (rs : List RItem) (ws : List WItem) (ops : List Op)
+    (hd : Disciplined (State.new base max rs ws) ops) :
+    Out.panic ∉ (run (State.new base max rs ws) ops).2 :=
+  run_nopanic ops (Inv.new base max rs ws) ⟨rfl, rfl⟩ hd
+
 /-! ### non-vacuity: the hypotheses are satisfiable on non-trivial runs -/
 
 /-- a read that would block, a short fill, a partial read, a fill across compaction, EOF -/
@@ -196,6 +205,13 @@ example :
     (run (State.new 4 64 [.d [1, 2, 3], .p, .d [4, 5, 6, 7, 8, 9], .z] [])
       [.fill 9, .read 2, .fill 9, .read 9, .fill 9, .read 9, .fill 9, .read 9, .read 9]).2 =
     [.num 3, .bytes [1, 2], .num 3, .bytes [3, 4, 5, 6], .num 3, .bytes [7, 8, 9], .num 0, .bytes [], .bytes []] := by
+  decide
+
+/-- a disciplined run through would-block, Pending, short transfers, an inner error and EOF -/
+example :
+    Disciplined (State.new 3 64 [.p, .d [1, 2, 3, 4, 5], .e, .z] [.p, .w 1, .e, .w 0])
+      [.read 4, .fill 9, .fillbuf, .consume 2, .read 4, .fill 9, .fill 9, .fill 9, .read 4, .read 4,
+       .write [7, 8, 9], .wflush 9, .wflush 9, .wflush 9, .st] := by
   decide
 
 /-- a flush that fails after a partial write, and the retry that sends exactly the rest -/
@@ -307,6 +323,18 @@ theorem async_flush_complete (base max : Nat) (rs : List RItem) (ws : List WItem
     rw [(AWrite.call_w _ _ _ _).2] at ho
     rw [(AWrite.call_w _ _ _ _).1]
     exact (AWrite.pollClose_clean t hc0 hw0).2 ho
+
+/-- **Write half: no panic and both `debug_assert!`s hold** for every caller that respects the guard
+of `async_flush_complete` — for every inner script (Pending / short / error answers of write, flush
+and shutdown) and any interleaving of `poll_write` / `poll_flush` / `poll_close` by any tasks, no
+write-half entry point panics (`expect(MISSING_BUF)`, the asserts of `Buffer::advance`, the
+`max - len` underflow of `write`, `debug_assert!(write_future.is_none())`,
+`debug_assert!(shutdown_future.is_none())`). Without the guard the last one fires:
+`Cex.C12.async_stale_close_debug_assert_counterexample`. -/
+theorem async_write_no_panic (base max : Nat) (rs : List RItem) (ws : List WItem) (ops : List PollAdapter.Op)
+    (hg : GuardedRun (PollAdapter.State.new base max rs ws) ops) :
+    NoWritePanic ops (PollAdapter.run (PollAdapter.State.new base max rs ws) ops).2 :=
+  (WSafe.run ops (WSafe.new base max ws) hg).1
 
 /-- **Waker law.** In every reachable state and for every next call:
 (1) if the call returns Pending, the inner stream is parked with a waker snapshot containing the caller;
